@@ -1785,7 +1785,7 @@ sf_read_short	(SNDFILE *sndfile, short *ptr, sf_count_t len)
 
 	count = psf->read_short (psf, ptr, len) ;
 
-	if (psf->read_current + count / psf->sf.channels <= psf->sf.frames)
+	if (psf->read_current + (count + psf->sf.channels - 1) / psf->sf.channels <= psf->sf.frames)
 		psf->read_current += count / psf->sf.channels ;
 	else
 	{	count = (psf->sf.frames - psf->read_current) * psf->sf.channels ;
@@ -1835,7 +1835,7 @@ sf_readf_short		(SNDFILE *sndfile, short *ptr, sf_count_t frames)
 
 	count = psf->read_short (psf, ptr, frames * psf->sf.channels) ;
 
-	if (psf->read_current + count / psf->sf.channels <= psf->sf.frames)
+	if (psf->read_current + (count + psf->sf.channels - 1) / psf->sf.channels <= psf->sf.frames)
 		psf->read_current += count / psf->sf.channels ;
 	else
 	{	count = (psf->sf.frames - psf->read_current) * psf->sf.channels ;
@@ -1893,7 +1893,7 @@ sf_read_int		(SNDFILE *sndfile, int *ptr, sf_count_t len)
 
 	count = psf->read_int (psf, ptr, len) ;
 
-	if (psf->read_current + count / psf->sf.channels <= psf->sf.frames)
+	if (psf->read_current + (count + psf->sf.channels - 1) / psf->sf.channels <= psf->sf.frames)
 		psf->read_current += count / psf->sf.channels ;
 	else
 	{	count = (psf->sf.frames - psf->read_current) * psf->sf.channels ;
@@ -1943,7 +1943,7 @@ sf_readf_int	(SNDFILE *sndfile, int *ptr, sf_count_t frames)
 
 	count = psf->read_int (psf, ptr, frames * psf->sf.channels) ;
 
-	if (psf->read_current + count / psf->sf.channels <= psf->sf.frames)
+	if (psf->read_current + (count + psf->sf.channels - 1) / psf->sf.channels <= psf->sf.frames)
 		psf->read_current += count / psf->sf.channels ;
 	else
 	{	count = (psf->sf.frames - psf->read_current) * psf->sf.channels ;
@@ -2001,7 +2001,7 @@ sf_read_float	(SNDFILE *sndfile, float *ptr, sf_count_t len)
 
 	count = psf->read_float (psf, ptr, len) ;
 
-	if (psf->read_current + count / psf->sf.channels <= psf->sf.frames)
+	if (psf->read_current + (count + psf->sf.channels - 1) / psf->sf.channels <= psf->sf.frames)
 		psf->read_current += count / psf->sf.channels ;
 	else
 	{	count = (psf->sf.frames - psf->read_current) * psf->sf.channels ;
@@ -2051,7 +2051,7 @@ sf_readf_float	(SNDFILE *sndfile, float *ptr, sf_count_t frames)
 
 	count = psf->read_float (psf, ptr, frames * psf->sf.channels) ;
 
-	if (psf->read_current + count / psf->sf.channels <= psf->sf.frames)
+	if (psf->read_current + (count + psf->sf.channels - 1) / psf->sf.channels <= psf->sf.frames)
 		psf->read_current += count / psf->sf.channels ;
 	else
 	{	count = (psf->sf.frames - psf->read_current) * psf->sf.channels ;
@@ -2109,7 +2109,7 @@ sf_read_double	(SNDFILE *sndfile, double *ptr, sf_count_t len)
 
 	count = psf->read_double (psf, ptr, len) ;
 
-	if (psf->read_current + count / psf->sf.channels <= psf->sf.frames)
+	if (psf->read_current + (count + psf->sf.channels - 1) / psf->sf.channels <= psf->sf.frames)
 		psf->read_current += count / psf->sf.channels ;
 	else
 	{	count = (psf->sf.frames - psf->read_current) * psf->sf.channels ;
@@ -2159,7 +2159,7 @@ sf_readf_double	(SNDFILE *sndfile, double *ptr, sf_count_t frames)
 
 	count = psf->read_double (psf, ptr, frames * psf->sf.channels) ;
 
-	if (psf->read_current + count / psf->sf.channels <= psf->sf.frames)
+	if (psf->read_current + (count + psf->sf.channels - 1) / psf->sf.channels <= psf->sf.frames)
 		psf->read_current += count / psf->sf.channels ;
 	else
 	{	count = (psf->sf.frames - psf->read_current) * psf->sf.channels ;
